@@ -680,7 +680,11 @@ Definition ref_write (st : fstyle) (a : adoc) : option bytes :=
       | XStream x =>
         let offs' := offs ++ [(xs_id x, 0, xpos)] in
         let entry := entry_of offs' st in
-        let secs := use_secs (xs_secs x) size (fun n => (n =? 0) || is_used (entry n)) in
+        (* 7.5.8: a cross-reference stream lists the objects its Index names; nothing obliges it to list object 0
+           (the head of the free list matters to a cross-reference TABLE, 7.5.4).  When no listed entry is free or
+           compressed the type field may have width 0 (table 18: default type 1); when every generation is 0 the third
+           field may have width 0. *)
+        let secs := use_secs (xs_secs x) size (fun n => is_used (entry n)) in
         let xsecs : xsections := map (fun fc => (fst fc, map entry (range_N (fst fc) (N.to_nat (snd fc))))) secs in
         let '(w0, w1, w2) := xs_w x in
         let ents := flat_map snd xsecs in
@@ -709,6 +713,186 @@ Definition ref_write (st : fstyle) (a : adoc) : option bytes :=
     end
   end.
 
+
+(* ---------- files with several cross-reference sections (7.5.4 trailer Prev, 7.5.6, 7.5.8.2) ----------
+   A file may consist of several PARTS: objects, then a cross-reference section (table and trailer, or cross-reference
+   stream) whose Prev entry names the section of the part before it, then startxref and %%EOF; the section of the last
+   part is the one startxref leads to.  This is how a producer appends to a file, whether it adds objects only (every
+   section lists its own objects: disjoint sets), lists an object of an earlier part again with the entry it already
+   has (legal: the entry says the same), or REPLACES an object of an earlier part by writing a new definition under the
+   same number and generation (7.5.6: the newest entry for a number is the one that counts).  What the file defines is
+   the abstract document [a]; the superseded definitions ([mp_old]) are in the file but not in its content.
+   Outside (the property's domain excludes them): entries that free an object of an earlier part -- so a section of a
+   later part lists only entries in use (and possibly object 0) -- and hybrid files (XRefStm). *)
+Record mpart := {
+  mp_nums : list N;             (* top-level objects of the document (and object-stream containers) written in this part *)
+  mp_old : list (N * obj);      (* superseded definitions written in this part; the current one is in a LATER part *)
+  mp_relist : list N;           (* numbers of earlier parts that this part's section lists again, entry unchanged *)
+  mp_order : list N;
+  mp_xref : xstyle;
+  mp_sx : eolk * nat * nat * eolk * option eolk     (* the startxref block of this part *)
+}.
+
+Definition K_PrevW := Eval cbv in bs "Prev".
+
+(* the style of one part: a part that is not the last ends with an end-of-line marker (the next object starts a line) *)
+Definition with_part (st : fstyle) (p : mpart) (last : bool) : fstyle :=
+  let '(e1, s1, s2, e2, fe) := mp_sx p in
+  {| s_junk := s_junk st; s_hdr_eol := s_hdr_eol st; s_binary := s_binary st; s_order := mp_order p; s_objs := s_objs st;
+     s_ostms := s_ostms st; s_xref := mp_xref p; s_sx_eol1 := e1; s_sx_sp1 := s1; s_sx_sp2 := s2; s_sx_eol2 := e2;
+     s_final_eol := if last then fe else Some (match fe with Some e => e | None => ELF end) |}.
+
+(* sub-sections of a later part: cover what the part defines, every listed entry in use (or object 0) *)
+Definition secs_ok_later (secs : list (N * N)) (size : N) (here : N -> bool) (entry : N -> sentry) : bool :=
+  secs_increasing 0 secs && secs_cover secs size here &&
+  forallb (fun fc => (fst fc + snd fc <=? size) &&
+                     forallb (fun n => (n =? 0) || is_used (entry n)) (range_N (fst fc) (N.to_nat (snd fc)))) secs.
+
+(* the maximal runs of the numbers a part defines *)
+Fixpoint runs_of (here : N -> bool) (n : N) (count : nat) : list (N * N) :=
+  match count with
+  | O => []
+  | S c =>
+    if here n then
+      match runs_of here (n + 1) c with
+      | (f, k) :: t => if f =? n + 1 then (n, k + 1) :: t else (n, 1) :: (f, k) :: t
+      | [] => [(n, 1)]
+      end
+    else runs_of here (n + 1) c
+  end.
+
+Fixpoint lookup_entry (known : list (N * sentry)) (n : N) : option sentry :=
+  match known with
+  | [] => None
+  | (k, e) :: t => if k =? n then Some e else lookup_entry t n
+  end.
+
+(* the cross-reference section of one part, with its trailer / dictionary, startxref and %%EOF *)
+Definition section_text (st : fstyle) (a : adoc) (secs : list (N * N)) (entry : N -> sentry) (size xpos : N)
+           (prev : list (bytes * obj)) : bytes :=
+  match s_xref st with
+  | XTable t =>
+    let tsecs := build_tsecs secs entry (t_eols t) (t_eols t) (t_sec_eols t) (t_sec_sp t) in
+    table_text (t_kw_eol t) tsecs ++
+    join [(bs "trailer", t_f1 t);
+          (w_obj (ODict (a_trailer a ++ [(K_Size, OInt (Z.of_N size))] ++ prev)) (t_trailer t), t_f2 t);
+          (startxref_text st xpos, [])]
+  | XStream x =>
+    let xsecs : xsections := map (fun fc => (fst fc, map entry (range_N (fst fc) (N.to_nat (snd fc))))) secs in
+    let '(w0, w1, w2) := xs_w x in
+    let ents := flat_map snd xsecs in
+    let need (sel : sentry -> N) := fold_left N.max (map sel ents) 0 in
+    let fit (w : nat) (v : N) : nat :=
+      (fix go (k : nat) (w : nat) : nat :=
+         match k with O => w | S k' => if v <? 256 ^ N.of_nat w then w else go k' (S w) end) 8%nat w in
+    let t_of e := fst (fst (entry_fields e)) in
+    let a_of e := snd (fst (entry_fields e)) in
+    let b_of e := snd (entry_fields e) in
+    let w0' := if forallb (fun e => t_of e =? 1) ents then w0 else fit (Nat.max w0 1) (need t_of) in
+    let w1' := fit w1 (need a_of) in
+    let w2' := if forallb (fun e => b_of e =? 0) ents then w2 else fit (Nat.max w2 1) (need b_of) in
+    let raw := enc_sections w0' w1' w2' xsecs in
+    let '(data, fent) := apply_filter (xs_filter x) (N.of_nat (w0' + w1' + w2')) (xs_array x) raw in
+    let d := [(bs "Type", OName (bs "XRef")); (K_Size, OInt (Z.of_N size));
+              (bs "W", OArr [OInt (Z.of_nat w0'); OInt (Z.of_nat w1'); OInt (Z.of_nat w2')])] ++
+             (match secs with
+              | [(0, c)] => if xs_omit_index x && (c =? size) then [] else [(bs "Index", index_array xsecs)]
+              | _ => [(bs "Index", index_array xsecs)]
+              end) ++ a_trailer a ++ prev ++ fent ++ [(K_Length, OInt (Z.of_nat (length data)))] in
+    w_indirect (xs_id x) 0 (OStream d data) (xs_istyle x) ++ gap_bytes (i_gap (xs_istyle x)) ++ startxref_text st xpos
+  end.
+
+Definition part_containers (st : fstyle) (p : mpart) : list ostm :=
+  filter (fun s => mem_N (os_id s) (mp_nums p)) (s_ostms st).
+(* the numbers whose current definition a part holds: its top-level objects and the members of its object streams *)
+Definition part_defines (st : fstyle) (p : mpart) : list N :=
+  mp_nums p ++ flat_map os_members (part_containers st p).
+
+Fixpoint write_parts (st : fstyle) (a : adoc) (tops : list (oid * obj * istyle)) (parts : list mpart)
+         (pos : N) (prev : option N) (known : list (N * sentry)) (maxnum : N) : option bytes :=
+  match parts with
+  | [] => Some []
+  | p :: rest =>
+    let stp := with_part st p (match rest with [] => true | _ => false end) in
+    let later := flat_map (part_defines st) rest in
+    let olds := flat_map (fun no => match find_obj (a_objs a) (fst no) with
+                                    | Some (g, _) => [((fst no, g), snd no, find_istyle (s_objs st) (fst no))]
+                                    | None => []
+                                    end) (mp_old p) in
+    let mine := filter (fun t => mem_N (fst (fst (fst t))) (mp_nums p)) tops ++ olds in
+    let here_nums := map (fun t => fst (fst (fst t))) mine in
+    if negb (nodup_N here_nums && forallb (fun no => mem_N (fst no) later) (mp_old p) &&
+             Nat.eqb (length olds) (length (mp_old p)))
+    then None
+    else
+      let '(body, offs) := emit_objs pos (ordered (mp_order p) mine) in
+      let xpos := pos + N.of_nat (length body) in
+      let xid := match mp_xref p with XStream x => [xs_id x] | XTable _ => [] end in
+      let offs' := offs ++ map (fun i => (i, 0, xpos)) xid in
+      let conts := part_containers st p in
+      match mp_xref p, conts with
+      | XTable _, _ :: _ => None                   (* compressed objects need a cross-reference stream *)
+      | _, _ =>
+        let entry_here n :=
+          match find_off offs' n with
+          | Some (g, q) => SInUse q g
+          | None => match find_comp conts n with Some (c, k) => SComp c k | None => SFree 0 0 end
+          end in
+        let here n := is_used (entry_here n) in
+        let entry n :=
+          if here n then entry_here n
+          else if mem_N n (mp_relist p) then match lookup_entry known n with Some e => e | None => SFree 0 0 end
+          else if n =? 0 then SFree 0 65535 else SFree 0 0 in
+        let size := 1 + N.max maxnum (max_num (here_nums ++ xid ++ flat_map os_members conts)) in
+        if negb (existsb here (range_N 0 (N.to_nat size))) then None
+        else
+          let secs :=
+            match prev, mp_xref p with
+            | None, XTable t => use_secs (t_secs t) size (fun n => (n =? 0) || here n)
+            | None, XStream x => use_secs (xs_secs x) size here
+            | Some _, xr =>
+              let s0 := match xr with XTable t => t_secs t | XStream x => xs_secs x end in
+              if secs_ok_later s0 size here entry then s0 else runs_of here 0 (N.to_nat size)
+            end in
+          let prev_ent := match prev with Some q => [(K_PrevW, OInt (Z.of_N q))] | None => [] end in
+          let text := body ++ section_text stp a secs entry size xpos prev_ent in
+          let known' := map (fun n => (n, entry n)) (filter here (range_N 0 (N.to_nat size))) ++ known in
+          match write_parts st a tops rest (pos + N.of_nat (length text)) (Some xpos) known' (size - 1) with
+          | Some r => Some (text ++ r)
+          | None => None
+          end
+      end
+  end.
+
+Definition part_xids (parts : list mpart) : list N :=
+  flat_map (fun p => match mp_xref p with XStream x => [xs_id x] | XTable _ => [] end) parts.
+
+(* [s_xref] and [s_order] of [st] are not used: every part has its own *)
+Definition ref_write_multi (st : fstyle) (parts : list mpart) (a : adoc) : option bytes :=
+  let comp := compressed_nums st in
+  let nums := map (fun io => fst (fst io)) (a_objs a) in
+  let cids := map os_id (s_ostms st) in
+  let xids := part_xids parts in
+  if contains (bs "%PDF-") (s_junk st) || contains [x0d] (a_version a) || contains [x0a] (a_version a)
+  then None
+  else if negb (nodup_N (nums ++ cids ++ xids) && nodup_N comp && negb (mem_N 0 (nums ++ cids ++ xids)))
+  then None
+  else
+    match containers (a_objs a) (s_ostms st) with
+    | None => None
+    | Some conts =>
+      let tops := map (fun io => (fst io, snd io, find_istyle (s_objs st) (fst (fst io))))
+                      (filter (fun io => negb (mem_N (fst (fst io)) comp)) (a_objs a)) ++ conts in
+      let placed := flat_map mp_nums parts in
+      (* every top-level object is written in exactly one part *)
+      if negb (nodup_N placed && forallb (fun t => mem_N (fst (fst (fst t))) placed) tops) then None
+      else
+        let hdr := header st (a_version a) in
+        match write_parts st a tops parts (N.of_nat (length hdr)) None [] 0 with
+        | Some r => match parts with [] => None | _ => Some (s_junk st ++ hdr ++ r) end
+        | None => None
+        end
+    end.
 
 (* ---------- known finding C02-raw-eol: the style spells some LF of a literal string as a raw CR or CR LF ---------- *)
 Fixpoint lit_raw_cr (s : bytes) (st : list lpos) : bool :=
@@ -756,6 +940,12 @@ Definition Known_raw_eol (st : fstyle) (a : adoc) : bool :=
   | XTable t => obj_raw_cr (ODict (a_trailer a)) (t_trailer t)
   | XStream _ => false      (* the generator never draws raw CR spellings inside a cross-reference stream dictionary *)
   end.
+
+(* with several parts: the trailer that counts is the last part's *)
+Fixpoint last_part (parts : list mpart) : option mpart :=
+  match parts with [] => None | [p] => Some p | _ :: t => last_part t end.
+Definition Known_raw_eol_multi (st : fstyle) (parts : list mpart) (a : adoc) : bool :=
+  match last_part parts with Some p => Known_raw_eol (with_part st p true) a | None => false end.
 
 (* ---------- known finding C02-deep-parens: a string whose parentheses nest deeper than 100 ---------- *)
 Fixpoint paren_depth_gt (limit : nat) (s : bytes) (depth : nat) : bool :=
